@@ -7,7 +7,91 @@ SINGLE = ['optimize', 'constant_propagation', 'common_subexp_elimination', 'remo
           'remove_slice_nets', 'remove_unlistened_nets']
 
 
+def cse_lemma(ctx):
+    """Lemma over the real module constant `ops_where_arg_order_matters`: every primitive that
+    common-subexpression elimination canonicalises by *sorting its arguments* is symmetric in
+    its arguments (documented value unchanged under every transposition), for all widths/values."""
+    import itertools
+    import time
+    import z3
+    from pyvc import engine as E
+    from pyvc import theory as T
+    m = E.get_module('pyrtl.passes')
+    node = m.assigns.get('ops_where_arg_order_matters')
+    fn = 'pyrtl.passes.ops_where_arg_order_matters'
+    if node is None or not isinstance(getattr(node, 'value', None), str):
+        ctx.obligation('C04.lemma:cse-sorted-args-symmetric', fn, 'undecided', 'pyvc', 0.0,
+                       detail='constant not found as a string literal')
+        return
+    ordered = node.value
+    P = T.pow2
+    a, b, c, w = z3.Ints('a b c w')
+    arity = {'w': 1, '~': 1, 's': 1, 'r': 1, 'm': 1, '&': 2, '|': 2, '^': 2, 'n': 2, '+': 2, '-': 2,
+             '*': 2, '<': 2, '>': 2, '=': 2, 'c': 2, 'x': 3, '@': 3}
+    I = z3.If
+
+    def sem(op, xs):
+        if op == '&':
+            return T.band(xs[0], xs[1])
+        if op == '|':
+            return T.bor(xs[0], xs[1])
+        if op == '^':
+            return T.bxor(xs[0], xs[1])
+        if op == 'n':
+            return P(w) - 1 - T.band(xs[0], xs[1])
+        if op == '+':
+            return xs[0] + xs[1]
+        if op == '-':
+            return (xs[0] - xs[1]) % P(w + 1)
+        if op == '*':
+            return xs[0] * xs[1]
+        if op == '<':
+            return I(xs[0] < xs[1], 1, 0)
+        if op == '>':
+            return I(xs[0] > xs[1], 1, 0)
+        if op == '=':
+            return I(xs[0] == xs[1], 1, 0)
+        if op == 'c':
+            return xs[0] * P(w) + xs[1]
+        if op == 'x':
+            return I(xs[0] == 0, xs[1], xs[2])
+        if op == '@':
+            return xs[0] + 2 * xs[1] + 3 * xs[2]      # (addr, data, enable) are distinct roles
+        return xs[0]
+    for op in sorted(arity):
+        if op in ordered or arity[op] == 1:
+            continue
+        xs = [a, b, c][:arity[op]]
+        hyp = [w >= 1] + [z3.And(x >= 0, x < P(w)) for x in xs]
+        goal = z3.And(*[sem(op, list(p)) == sem(op, xs) for p in itertools.permutations(xs)])
+        s_ = z3.Solver()
+        s_.set('timeout', 20000)
+        fs = hyp + [z3.Not(goal)]
+        s_.add(*fs)
+        s_.add(*T.ground_axioms(fs))
+        t0 = time.time()
+        r = s_.check()
+        name = 'C04.lemma:cse-sorted-args-symmetric[%s]' % op
+        if r == z3.unsat:
+            ctx.obligation(name, fn, 'proved', 'z3', time.time() - t0, E.source_hash('pyrtl.passes', 'ops_where_arg_order_matters'))
+        elif r == z3.sat:
+            mdl = s_.model()
+            ctx.obligation(name, fn, 'refuted-no-input', 'z3', time.time() - t0, detail=str(mdl)[:300])
+            ctx.violation(name, dict(function=fn, obligation=name),
+                          'op %r is canonicalised by sorting its arguments but is not symmetric' % op,
+                          'symmetric', function=fn, no_input=True, solver_output='z3: sat\nmodel: %s' % mdl,
+                          text='common_subexp_elimination may merge nets that differ in argument order')
+        else:
+            ctx.obligation(name, fn, 'undecided', 'z3', time.time() - t0, detail=str(r))
+
+
 def run(ctx):
+    import contracts.passes     # noqa: F401
+    from pyvc.contract import REGISTRY
+    from pyvc import run as prun
+    cs = [c for c in REGISTRY.values() if 'C04' in c.props]
+    prun.run_contracts(ctx, cs, 'contracts.passes')
+    cse_lemma(ctx)
     fam = designs.family(ctx.tier, ctx.seed)
     k = 2 if ctx.tier == 'quick' else 3
     tasks = []
@@ -34,6 +118,9 @@ def run(ctx):
     ctx.assume('z3 soundness; spec/netsem.py is the reading of the LogicNet docstring')
     ctx.assume('sanctioned difference: a register the pass eliminates whose next value is a '
                'compile-time constant is constrained to start at that constant (property statement)')
-    return ctx.finish('other', './check C04', ['z3', 'spec/netsem.py', 'elab/n2smt.py'],
-                      'bounded stand-in: the real passes run per design; equivalence with the '
-                      'snapshot taken before the pass decided by SMT for all inputs/states')
+    ctx.assume('Python int = mathematical integer; bit-operation rewrites of DESIGN 3.2; Const(...) and '
+               'LogicNet(...) constructors modelled as records (Const precondition: value fits bitwidth)')
+    return ctx.finish('other', './check C04', ['z3', 'pyvc', 'spec/netsem.py', 'elab/n2smt.py'],
+                      'P: folding rules of constant_prop_check and the CSE symmetry lemma discharged by z3 '
+                      'for all widths/values; bounded stand-in: the real passes run per design; equivalence '
+                      'with the snapshot taken before the pass decided by SMT for all inputs/states')
